@@ -10,6 +10,9 @@
 (*    these cases aim at.  Afterwards the attacked node must still serve a   *)
 (*    request between two local processes and one over an unrelated          *)
 (*    connection, within bounded time and memory.                            *)
+(*  hs: an attacker on the path rewrites a handshake message of an honest    *)
+(*    dialer (the digests cover salt and cookie only): a flipped byte at any *)
+(*    offset, a cut, an entry of the error cache turned into the nil error.  *)
 (*  edf: the decoder is fed with mutated encodings of a value corpus: it     *)
 (*    returns a value or an error - no panic, no hang, bounded memory - and  *)
 (*    a value that decodes re-encodes to bytes that decode to the same value.*)
@@ -31,6 +34,11 @@ JudgeLive(e) ==
   ELSE IF e.complete /\ e.connup /\ e.after = "lost" THEN "QueueNotStuck"
   ELSE IF e.allockb > AllocLimitKB(e.injected) THEN "AllocBounded"
   ELSE ""
+\* a handshake message of an honest dialer was altered on the path: whatever becomes of that connection, the node goes on serving
+JudgeHs(e) ==
+  IF ~e.nodeok \/ e.local # "ok" THEN (IF e.local = "hang" THEN "NoHang" ELSE "LocalUnaffected")
+  ELSE IF e.witness # "ok" THEN (IF e.witness = "hang" THEN "NoHang" ELSE "OthersUnaffected")
+  ELSE ""
 JudgeEdf(e) ==
   IF e.outcome = "panic" THEN "DecoderNoPanic"
   ELSE IF e.outcome = "hang" THEN "NoHang"
@@ -43,7 +51,7 @@ Next ==
     THEN TLCSet(2, Append(TLCGet(2), <<mismatch, l - 1>>)) /\ mismatch' = "" /\ UNCHANGED l
     ELSE /\ l <= Len(TraceLog)
          /\ LET e == TraceLog[l] IN
-            mismatch' = IF Checks = {} THEN "" ELSE IF e.ev = "live" THEN JudgeLive(e) ELSE IF e.ev = "edf" THEN JudgeEdf(e) ELSE ""
+            mismatch' = IF Checks = {} THEN "" ELSE IF e.ev = "live" THEN JudgeLive(e) ELSE IF e.ev = "edf" THEN JudgeEdf(e) ELSE IF e.ev = "hs" THEN JudgeHs(e) ELSE ""
          /\ l' = l + 1
 Spec == Init /\ [][Next]_vars
 HWM == TLCSet(1, IF l > TLCGet(1) THEN l ELSE TLCGet(1))
